@@ -477,6 +477,23 @@ def _body(ctx):
         [b for n, b in find_expr("':'.join(['{%s}' % _k for _k in _spec])", kinit.node)]
     run.check(len(join_ok) == 1, 'KEY', kinit.where, kinit.qualname, "':'.join('{%s}' % key for key in key_spec)",
               'list keys are not rendered as colon-separated components (two different key tuples could render the same string)')
+    # the key fields are kept in the order of the key specification: full-outer stores the source's key values by position
+    # (`__key__`) and writes them back by position under the target's key fields, so the two lists must pair up as the user wrote them
+    from sa.pathvals import PathValues as _PVk
+    kspec = kinit.params[1]
+    okl, nkl = True, 0
+    for p_ in Enumerator(where=kinit.qualname).paths(ctx.N(kinit).node.body):
+        if p_.term == 'raise':
+            continue
+        v_ = _PVk(p_).env.get('self.key_list')
+        nkl += 1
+        okl = okl and v_ is not None and (pseudo(v_) == kspec or (isinstance(v_, ast.Call) and u(v_.func) in ('re.findall', 'list')
+                                                                   and kspec in {n_.id for n_ in ast.walk(v_) if isinstance(n_, ast.Name)}
+                                                                   and not any(isinstance(c_, ast.Call) and u(c_.func) in ('sorted', 'set', 'reversed', 'frozenset')
+                                                                               for c_ in ast.walk(v_))))
+    run.check(okl and nkl >= 2, 'KEY', kinit.where, kinit.qualname, 'self.key_list = the key fields in specification order',
+              'the list of key fields is reordered or de-duplicated: in full-outer mode the source key values, stored by position, are '
+              'written back under the wrong target key fields')
     rets = [n for n in ast.walk(kcall.node) if isinstance(n, ast.Return)]
     okc = len(rets) == 1 and match_expr("self.key_spec.format(**{**_row, '#': _rn})", resolve_here(rets[0].value),
                                         {'_row': kcall.params[1], '_rn': kcall.params[2]}) is not None
